@@ -2,7 +2,10 @@
 #![allow(unused_imports)]
 
 use crate::semaphore::Semaphore;
+#[cfg(not(fclones_verif_shuttle))]
 use lazy_static::lazy_static;
+#[cfg(fclones_verif_shuttle)]
+use crate::verif_shim::lazy_static;
 use std::sync::Arc;
 
 #[cfg(unix)]
